@@ -189,6 +189,12 @@ pub fn gen(args: &Args, out: &mut dyn Write) {
                 3 => v[1] = [v[0][0] + rng.range(0, 2 << s), v[0][1] + rng.range(0, 1 << s)],
                 _ => {}
             }
+            // fine lattices: one vertex exactly on a row of pixel centres (y = k + 1/2), where the
+            // two halves of the triangle meet on a sampling row
+            if s >= 3 && i % 8 >= 6 {
+                let j = (i / 8) % 3;
+                v[j][1] = ((v[j][1] >> s) << s) + (1 << (s - 1));
+            }
             emit(out, format!("R{}-{}", args.seed, i), s, v, &mut rng, small, i);
         }
     }
